@@ -25,7 +25,7 @@ ASSUMPTIONS = [
     "a kappa/Omega pair is skipped (counted) only when one member is exactly 1 and the other within 1e-6 of 1.1, i.e. "
     "float noise moved the raw ratio across the 1.1 clamp edge; the edge at 1.0 is continuous",
 ]
-REQUIRED = {"all": ["pairs:respell", "pairs:omega_respell", "pairs:reverse", "pairs:invert", "nontrivial_kappa",
+REQUIRED = {"all": ["salted_objects", "pairs:respell", "pairs:omega_respell", "pairs:reverse", "pairs:invert", "nontrivial_kappa",
                     "nontrivial_scd", "nontrivial_omega", "every_residue_seen", "longer_than_400"]}
 LP = {"quick": 8, "thorough": 10}
 NRANDOM = {"quick": 400, "thorough": 5000}
